@@ -217,17 +217,42 @@ func encode(krb5data []byte) (r []byte, err error) {
 }
 
 func awaitReply(conn net.Conn, isUdp bool, reply chan<- []byte) {
-	resp, err := io.ReadAll(conn)
+	resp, err := readReply(conn, isUdp)
 	if err != nil {
 		log.Printf("error reading from kdc due to %s", err)
 		reply <- nil
 		return
 	}
-	if isUdp {
-		// udp will be missing the length prefix so add it
-		prefix := make([]byte, 4)
-		binary.BigEndian.PutUint32(prefix, uint32(len(resp)))
-		resp = append(prefix, resp...)
-	}
 	reply <- resp
+}
+
+// readReply reads one reply from a kdc and returns it with its 4 byte length prefix. It does
+// not wait for the end of the stream: a kdc keeps a tcp connection open after it has replied
+// and a udp socket has no end at all
+func readReply(conn net.Conn, isUdp bool) ([]byte, error) {
+	if isUdp {
+		// one datagram is one reply; udp will be missing the length prefix so add it
+		buf := make([]byte, 4+64*1024)
+		n, err := conn.Read(buf[4:])
+		if err != nil {
+			return nil, err
+		}
+		binary.BigEndian.PutUint32(buf[:4], uint32(n))
+		return buf[:4+n], nil
+	}
+
+	prefix := make([]byte, 4)
+	if _, err := io.ReadFull(conn, prefix); err != nil {
+		return nil, err
+	}
+	length := binary.BigEndian.Uint32(prefix)
+	if length > maxLength {
+		return nil, fmt.Errorf("reply of %d bytes is too large", length)
+	}
+	resp := make([]byte, 4+length)
+	copy(resp, prefix)
+	if _, err := io.ReadFull(conn, resp[4:]); err != nil {
+		return nil, err
+	}
+	return resp, nil
 }
